@@ -456,6 +456,23 @@ impl Asset for TBytes {
     type Loader = TBytesLoader;
 }
 
+/// A wide value: 64 words all equal to the parsed integer (self-checking against torn reads).
+#[derive(Debug)]
+pub struct TWide(pub V, pub [u64; 64]);
+pub struct TWideLoader;
+impl Loader<TWide> for TWideLoader {
+    fn load(content: Cow<[u8]>, ext: &str) -> Result<TWide, BoxedError> {
+        let n = parse_int(&content)?;
+        let v = V::new(n, ext);
+        trace(Ev::Made("W".into(), ext.into(), v.tok.0));
+        Ok(TWide(v, [n as u64; 64]))
+    }
+}
+impl Asset for TWide {
+    const EXTENSION: &'static str = "w";
+    type Loader = TWideLoader;
+}
+
 /// Storable-only value (for get_or_insert)
 #[derive(Debug)]
 pub struct SVal(pub V);
